@@ -69,6 +69,10 @@ pub struct Items<T>(mpsc::Receiver<T>);
 impl<T> Iterator for Items<T> {
   type Item = T;
   fn next(&mut self) -> Option<Self::Item> {
+    #[cfg(ast_grep_verif)]
+    if crate::verif::active() {
+      return crate::verif::sim_recv(&self.0);
+    }
     // TODO: add error reporting here
     self.0.recv().ok()
   }
@@ -113,9 +117,15 @@ fn run_worker<W: PathWorker + ?Sized + 'static, P: Printer>(
   let (tx, rx) = mpsc::channel();
   let w = worker.clone();
   let walker = worker.build_walk()?;
+  #[cfg(ast_grep_verif)]
+  let walker = crate::verif::SimWalk::wrap(walker);
   let processor = printer.get_processor();
+  #[cfg(ast_grep_verif)]
+  let verif_token = crate::verif::pre_spawn("walk-master");
   // walker run will block the thread
   std::thread::spawn(move || {
+    #[cfg(ast_grep_verif)]
+    let _verif_guard = crate::verif::thread_guard(verif_token);
     let tx = tx;
     let processor = processor;
     walker.run(|| {
@@ -133,6 +143,8 @@ fn run_worker<W: PathWorker + ?Sized + 'static, P: Printer>(
           return WalkState::Continue;
         };
         for result in items {
+          #[cfg(ast_grep_verif)]
+          crate::verif::yield_point("send", &p);
           match tx.send(result) {
             Ok(_) => continue,
             Err(_) => return WalkState::Quit,
